@@ -255,9 +255,40 @@ impl Check for C06 {
         "exploration"
     }
     fn chunks(&self, _tier: Tier) -> usize {
-        seq_chunks(alphabet().len())
+        seq_chunks(alphabet().len()) + 1
     }
     fn run_chunk(&self, tier: Tier, chunk: usize, ctx: &mut Ctx) {
+        if chunk == seq_chunks(alphabet().len()) {
+            // literal keys in the neighbourhood of keccak(n), n small: only keccak(n) itself denotes array data; the words
+            // around it are ordinary 256-bit keys and need their entry like any other
+            for n in [0u64, 1, 3, 9_999, 10_000] {
+                let h = crate::util::keccak_words(&[U::from_u64(n)]);
+                let mut keys: Vec<U> = (1..=9u64).map(|i| h.add(U::from_u64(i))).collect();
+                keys.extend([h.sub(U::ONE), h.sub(U::from_u64(2)), h.add(U::from_u64(32)), h.add(U::from_u64(256))]);
+                if n == 10_000 {
+                    keys.push(h);
+                }
+                for k in keys {
+                    for shape in 0..3 {
+                        let t: Vec<Tok> = match shape {
+                            0 => vec![Tok::Push(U::ONE), Tok::Push(k), Tok::Op(op::SSTORE)],
+                            1 => vec![Tok::Push(k), Tok::Op(op::SLOAD), Tok::Op(op::POP)],
+                            _ => vec![Tok::Push(k), Tok::Op(op::SLOAD), Tok::Push(U::ONE), Tok::Op(op::ADD), Tok::Push(k), Tok::Op(op::SSTORE)],
+                        };
+                        let code = assemble(&t);
+                        ctx.case(|| json!({"bytes": hex(&code)}));
+                        ctx.count("evaluations", 1);
+                        ctx.count("keys_near_a_slot_hash", 1);
+                        match check_code(&code) {
+                            Ok(Some(_)) => ctx.distinct("nontrivial", crate::util::h64(&code)),
+                            Ok(None) => ctx.count("premise_not_met", 1),
+                            Err(v) => ctx.violation(format!("{}:near-slot-hash", v.key), format!("{} [key = keccak({n}) + d, {}]", v.what, hex(&code)), json!({"bytes": hex(&code)})),
+                        }
+                    }
+                }
+            }
+            return;
+        }
         let alpha = alphabet();
         run_seq_chunk(alpha.len(), max_len(tier), chunk, &mut |ix| {
             let seq: Vec<Tk> = ix.iter().map(|i| alpha[*i]).collect();
@@ -348,7 +379,7 @@ impl Check for C06 {
              boundary keys (1, 5, 10000, 2^64, 2^64+1, 2^128, 2^255, 2^256-1, the EIP-1967 slot, keccak(\"a\")-1), SLOAD/SSTORE with the \
              operand left on / taken from the stack for two keys, and context tokens (conditional jump to a label, JUMPDEST, STOP, \
              REVERT, POP, CALLVALUE, a mask, DUP1), writes of 3- and 5-node values; sequences <= 3 additionally with SELFDESTRUCT / RETURN / INVALID appended, under value size limits \
-             1..6 (culling at the limit must never remove the witness of an access) and under a never-stopping watchdog polled every 1, 2, 3, 7 iterations. Premise from the tool (offset executed in some stored state, or the VM's main loop made exactly as many iterations as the \
+             1..6 (culling at the limit must never remove the witness of an access) and under a never-stopping watchdog polled every 1, 2, 3, 7 iterations. Plus literal keys within 9 words above and 2 below keccak(n) for n = 0, 1, 3, 9 999, 10 000 (and at +32, +256), written, read and read-modify-written. Premise from the tool (offset executed in some stored state, or the VM's main loop made exactly as many iterations as the \
              reference EVM's path tree has steps) and from the reference \
              EVM (the access does not fault); when permissive analyze() succeeds every such key that is not keccak(n), n < 10000, must \
              be the index of an entry, compared as a 256-bit word. non-trivial = program with at least one required key; distinct by content",
